@@ -334,18 +334,24 @@ class Swap(SymmetryStrategy):
 class Rot(_ModeMixin, DisjointUnionStrategy):
     """relabel the alphabet cyclically by k steps (a unary equivalence); may be declared one-way"""
 
-    def __init__(self, mode="", k=1, two_way=True):
+    def __init__(self, mode="", k=1, two_way=True, perm=None):
         self.k = k
         self.two_way = two_way
+        self.perm = perm  # e.g. "bac": a->b, b->a, c->c (overrides the rotation by k); only for alphabets of that size
         super().__init__(mode=mode)
 
-    def _t(self, c):
+    def _image(self, c):
         al = "".join(c.alphabet)
+        if self.perm is not None:
+            return self.perm if (len(self.perm) == len(al) and sorted(self.perm) == sorted(al)) else al
         k = self.k % len(al)
-        return str.maketrans(al, al[k:] + al[:k])
+        return al[k:] + al[:k]
+
+    def _t(self, c):
+        return str.maketrans("".join(c.alphabet), self._image(c))
 
     def decomposition_function(self, c):
-        if isinstance(c, SW) or len(c.alphabet) < 2 or self.k % len(c.alphabet) == 0:
+        if isinstance(c, SW) or len(c.alphabet) < 2 or self._image(c) == "".join(c.alphabet):
             return None
         t = self._t(c)
         tmp = PW(c.prefix.translate(t), [p.translate(t) for p in c.patterns], c.alphabet, c.just_prefix,
@@ -370,24 +376,23 @@ class Rot(_ModeMixin, DisjointUnionStrategy):
         return self.two_way
 
     def formal_step(self):
-        return f"rot{self.k}{'' if self.two_way else ' one-way'} {self.mode}".strip()
+        return f"rot{self.k if self.perm is None else self.perm}{'' if self.two_way else ' one-way'} {self.mode}".strip()
 
     def forward_map(self, c, w, children=None):
         return (W(w.translate(self._t(c))),)
 
     def backward_map(self, c, ws, children=None):
-        al = "".join(c.alphabet)
-        k = self.k % len(al)
-        yield W(ws[0].translate(str.maketrans(al[k:] + al[:k], al)))
+        yield W(ws[0].translate(str.maketrans(self._image(c), "".join(c.alphabet))))
 
     def to_jsonable(self):
         d = super().to_jsonable()
         d["k"] = self.k
         d["two_way"] = self.two_way
+        d["perm"] = self.perm
         return d
 
     def __repr__(self):
-        return f"Rot({self.mode!r},{self.k},{self.two_way})"
+        return f"Rot({self.mode!r},{self.k},{self.two_way},{self.perm!r})"
 
 
 class SW(PW):
